@@ -33,7 +33,7 @@ def spin_shapes(rng, n):
         ap = rng.choice(appends)
         pat = rng.choice(pats)
         hd = rng.choice(handlers)
-        kind = rng.randrange(17)
+        kind = rng.randrange(21)
         if kind == 0:
             body = f'"x"; loop {{ try {{ {ap} {pat}; }} catch (outofspace) {{ {hd} }} }}'
         elif kind == 1:
@@ -61,6 +61,21 @@ def spin_shapes(rng, n):
             body = f'optional {{ "#"; }} loop {{ case {{ {pat} -> {{ i = [i + 1]; }} else -> {{ i = 0; }} }} }}'
         elif kind == 12:
             body = f'try {{ "xy"; }} catch (nomatch) {{ }} loop {{ try {{ {pat}; }} catch (nomatch) {{ {rng.choice(["", "i = 1;"])} }} }}'
+        elif kind in (17, 18):
+            # an append inside the out-of-space handler itself: when it finds the output full there is no handler left for
+            # it (FAIL), never its own catch block again
+            ap2 = rng.choice(["s += [66];", "s += [$last];", 's += "c";'])
+            if kind == 17:
+                body = f'"x"; try {{ {ap} {ap} {pat}; }} catch (outofspace) {{ {ap2} {hd} }} "k";'
+            else:
+                body = f'loop {{ try {{ {pat}; {ap} }} catch (outofspace) {{ {ap2} {rng.choice(["", "h();", "i = 1;"])} }} }}'
+        elif kind in (19, 20):
+            # a loop body that may consume nothing but yields: the compiler's loop check has to see through the yield
+            decl = decl + "yieldcode GOT;\nyieldcode ALSO;\n"
+            if kind == 19:
+                body = f'loop {{ optional {{ {pat}; }} yield GOT; {rng.choice(["", "h();", "i = 1;"])} }}'
+            else:
+                body = f'loop {{ case {{ {pat} -> {{ yield GOT; }} else -> {{ {rng.choice(["yield ALSO;", "h(); yield ALSO;"])} }} }} }}'
         elif kind >= 14:
             # yields next to matches that end by look-ahead or start the next iteration: at -O3 the yield is merged onto a
             # consuming transition; a yield that returns without advancing the cursor is returned for ever
@@ -85,9 +100,9 @@ def spin_shapes(rng, n):
                     'loop outer { case { "c" -> {} "q" -> { break outer; } else -> { break inner; } } loop inner { "a"; } }',
                     'loop m { loop l { case { "a" -> { break l; } "c" -> { break m; } } } loop l { "b"; break; } } "x";'][k]
         src = decl + "parser {\n  " + body + "\n}\n"
-        out.append({"name": f"spin-{k}", "src": src, "feats": {}, "args": ["-fyield-support"] if 14 <= kind < 99 else [],
+        out.append({"name": f"spin-{k}", "src": src, "feats": {}, "args": ["-fyield-support"] if 14 <= kind < 99 and kind not in (17, 18) else [],
                     "origin": "spin-shape", "shape": kind,
-                    "level": "-O0" if kind == 99 else rng.choice(["-O3", "-O3", "-O1"]) if 14 <= kind < 99 else rng.choice(["-O0", "-O1", "-O3"])})
+                    "level": "-O0" if kind == 99 else rng.choice(["-O3", "-O3", "-O1"]) if 14 <= kind < 99 and kind not in (17, 18) else rng.choice(["-O0", "-O1", "-O3"])})
     return out
 
 
@@ -202,7 +217,10 @@ def main():
         confirmed = False
         for v in r["viol"]:
             confirmed = True
-            key = "spin-through-outofspace-redirect" if v["through_outofspace_redirect"] else f"spin/{population.src_hash(prog['src'])}"
+            # the recorded finding is a *loop* around a try whose out-of-space handler comes back to the append without
+            # consuming: a program without a loop statement cannot be that call site
+            in_loop = re.search(r"\bloop\b", prog["src"]) is not None
+            key = "spin-through-outofspace-redirect" if v["through_outofspace_redirect"] and in_loop else f"spin/{population.src_hash(prog['src'])}"
             if prog.get("shape") == 13 and r["candidate"] and r["candidate"].get("only_conditions"):
                 # the recorded finding: every move of the cycle is the same data condition of a conditional break
                 key = "spin-through-conditional-break"
@@ -215,7 +233,7 @@ def main():
                 st["candidates_confirmed"] += 1
             else:
                 # the theorem's hypothesis is not met for this machine and no failing input was found
-                if r["candidate"]["through_outofspace_redirect"] and any(k.get("key") == "spin-through-outofspace-redirect" and k.get("kind") == "known" and k.get("property") == "C04" for k in ck.known):
+                if r["candidate"]["through_outofspace_redirect"] and re.search(r"\bloop\b", prog["src"]) and any(k.get("key") == "spin-through-outofspace-redirect" and k.get("kind") == "known" and k.get("property") == "C04" for k in ck.known):
                     # same call site as the recorded finding (redirect into a handler that re-enters the append)
                     ck.report("spin-through-outofspace-redirect", "candidate spin through an out-of-space redirect", {"program": prog["src"], "candidate": r["candidate"]})
                 else:
